@@ -1,6 +1,9 @@
 //! Certificate reloader with file watching and hot reload support
 
-use crate::util::{AnyTlsError, CertificateInfo, Result, create_server_config_from_files};
+use crate::util::{
+    AnyTlsError, CertificateInfo, Result, create_server_config_from_files,
+    create_server_config_from_pem,
+};
 use notify::{Config, Event, EventKind, RecommendedWatcher, RecursiveMode, Watcher};
 use std::path::PathBuf;
 use std::sync::{Arc, RwLock};
@@ -119,16 +122,24 @@ impl CertReloader {
         let start = Instant::now();
         info!("[CertReloader] Reloading certificate...");
 
-        // Load new certificate
-        let new_config =
-            create_server_config_from_files(&self.config.cert_path, &self.config.key_path)?;
+        // Load new certificate: read each file exactly once, so that the TLS configuration,
+        // the expiry check and the reported information all describe the same bytes even if
+        // somebody rewrites the files while we are reloading.
+        let cert_pem = std::fs::read(&self.config.cert_path).map_err(AnyTlsError::Io)?;
+        let key_pem = std::fs::read(&self.config.key_path).map_err(AnyTlsError::Io)?;
+        let new_config = create_server_config_from_pem(
+            &cert_pem,
+            &key_pem,
+            &format!("{:?}", self.config.cert_path),
+            &format!("{:?}", self.config.key_path),
+        )?;
         let new_acceptor = Arc::new(TlsAcceptor::from(new_config));
 
         // H7: fault point between the two reads of the certificate file
         #[cfg(anytls_verif)]
         ::anytls_simnet::fault::point("cert_reload.between_reads");
         // Analyze new certificate
-        let new_cert_info = CertificateInfo::from_pem_file(&self.config.cert_path)?;
+        let new_cert_info = CertificateInfo::from_pem_bytes(&cert_pem)?;
 
         // Log changes
         if let Some(ref old_info) = *self.cert_info.read().unwrap() {
